@@ -108,6 +108,18 @@ example : wfInputTypes d10aSchema.types = true ∧
     conformant (allTypes d10aSchema) (.named "Color") (.int 0) = true ∧
     conformant (allTypes d10aSchema) (.list (.named "In")) (.list [.obj [("a", .int 1)]]) = true := by decide +kernel
 
+/-- `default_roundtrip_partial` — what held at the pinned tree: the round trip for defaults without an enum or
+input-object value inside (`defaultIsScalarLike`), because there the old function computes what the repaired one does. -/
+theorem default_roundtrip_pinned_partial (s : Schema) (t : GType) (v : JVal) (hwf : wfInputTypes s.types = true)
+    (hc : conformant (allTypes s) t v = true) (hs : defaultIsScalarLike s t v = true) :
+    reread s t (printDefaultPinned s t v) = some v := by
+  have h := default_roundtrip s t v hwf hc
+  obtain ⟨l, hl, _, _⟩ := value_roundtrip (allTypes s) (wfInputTypes_all s hwf) v t hc
+  have hp : printDefaultPinned s t v = printDefault s t v := by
+    simp only [printDefaultPinned, printDefault, printDefaultIn, pinned_eq_on_scalarLike (allTypes s) v t hs, hl]
+    rfl
+  rw [hp]; exact h
+
 /-- pinned tree: `e: Color = 0` was reported as `0`, which reads back as null, not as the configured `0` … -/
 example : printDefaultPinned d10aSchema (.named "Color") (.int 0) = "0" ∧
     (reread d10aSchema (.named "Color") (printDefaultPinned d10aSchema (.named "Color") (.int 0)) == some (.int 0)) = false ∧
